@@ -156,7 +156,7 @@ Print Assumptions c02_lemma_B_statement_needs_distinct_subquery_text.
     are those of the specification's [zip_union].  Extra hypothesis [union_alias_coherent] (a table read in both branches
     carries the same alias in both) is a limit of the proof technique, not of the statement: exhaustive enumeration of 52 400
     union statements (coq/extra/LemmaB5bEnum.v) finds no failing instance inside [colshape]. *)
-From SV Require Import Tree.LemmaB5b.
+From SV Require Import Tree.LemmaB5b Tree.LemmaB5b2.
 
 Theorem c02_exact_on_union_partial : forall noise e s,
   noise_ok noise = true -> env_ok e = true -> stmt_ok s = true -> sshape s = true -> colshape s = true ->
@@ -164,6 +164,16 @@ Theorem c02_exact_on_union_partial : forall noise e s,
   script_pairs e false [] [r_stmt noise s] = spec_pairs (e_cfg e) s.
 Proof. exact lemma_B_union_partial. Qed.
 Print Assumptions c02_exact_on_union_partial.
+
+(** ... and without the extra hypothesis (Tree/LemmaB5b2*.v: the alias mapping and the source columns are redone up to
+    Python equality of datasets, so the same table may be read by both branches under different aliases; K-C02-4 is derived
+    from [colshape] at Prop level): the full instance of [lemma_B_statement] for UNION of two plain SELECTs. *)
+Theorem c02_exact_on_union : forall noise e s,
+  noise_ok noise = true -> env_ok e = true -> stmt_ok s = true -> sshape s = true -> colshape s = true ->
+  sel_union_syntactic s = true ->
+  script_pairs e false [] [r_stmt noise s] = spec_pairs (e_cfg e) s.
+Proof. exact lemma_B_union. Qed.
+Print Assumptions c02_exact_on_union.
 
 (** ... step 5c continued (Tree/LemmaB5c2.v): FROM lists of ANY number of relations, each a base table or a depth-1 derived
     table (SELECT plain columns FROM base tables), comma joins or explicit JOINs, any trivia; induction over the sub-query
